@@ -37,7 +37,7 @@ def run(ctx):
     ex0 = cf.ThreadPoolExecutor(max_workers=1)
     f_mc = ex0.submit(common.model_check, ctx, "OsmDocCases", "OsmDocCases_json_quick.cfg" if q else "OsmDocCases_json_thorough.cfg")
     cases = common.gen(ctx, "json")
-    seeds = [ctx.seed] if q else [ctx.seed + k for k in range(6)]
+    seeds = [ctx.seed] if q else [ctx.seed + k for k in range(9)]
     allc, allr = [], []
     for sd in seeds:
         allr += execute(ctx, binp, cases, sd)
